@@ -224,4 +224,81 @@ theorem accProps_forget (env : Env) : ∀ (l : List (Key × Elem)), accProps env
     rfl
 end
 
+
+/-! ### class names -/
+
+def anonCls : Cls → Cls
+  | .object _ => .object ""
+  | c => c
+
+theorem accCore_anonCls (env : Env) (c : Cls) (kw : Kw) (s : VSub) (a : Arg) :
+    accCore env (anonCls c) kw s a = accCore env c kw s a := by
+  cases c <;> rfl
+
+mutual
+/-- attribute names *and* class names forgotten -/
+def anonymize : Elem → Elem
+  | .mk c kw items addI cont props pats addP pn deps els =>
+    .mk (anonCls c) kw (anonL items) (anonO addI) (anonO cont) (anonP props) (anonK pats) (anonO addP) (anonO pn)
+      (anonK deps) (anonL els)
+def anonO : Option Elem → Option Elem
+  | none => none
+  | some e => some (anonymize e)
+def anonL : List Elem → List Elem
+  | [] => []
+  | e :: es => anonymize e :: anonL es
+def anonP : List (Key × Elem) → List (Key × Elem)
+  | [] => []
+  | (k, e) :: r => (normKey k, anonymize e) :: anonP r
+def anonK : List (Key × Elem) → List (Key × Elem)
+  | [] => []
+  | (k, e) :: r => (k, anonymize e) :: anonK r
+end
+
+theorem anonymize_kw (e : Elem) : (anonymize e).kw = e.kw := by
+  cases e; rw [anonymize]; rfl
+
+theorem anonymize_isNothing (e : Elem) : ((anonymize e).cls != .nothing) = (e.cls != .nothing) := by
+  cases e with
+  | mk c kw items addI cont props pats addP pn deps els =>
+    rw [anonymize]
+    cases c <;> rfl
+
+mutual
+/-- **Verdicts ignore attribute names and class names.** -/
+theorem acc_anonymize (env : Env) : ∀ (e : Elem), (anonymize e).acc env = e.acc env
+  | .mk c kw items addI cont props pats addP pn deps els => by
+    funext a
+    rw [anonymize, Elem.acc, Elem.acc]
+    rw [accList_anon env items, accAddl_anon env addI, accOpt_anon env cont, accProps_anon env props,
+      accKeyed_anon env pats, accOpt_anon env addP, accOpt_anon env pn, accKeyed_anon env deps, accList_anon env els]
+    rw [accCore_anonCls]
+    exact accCore_erase env c kw
+      { items := accList env items, addItems := accAddl env addI, contains := accOpt env cont, props := accProps env props,
+        patProps := accKeyed env pats, addProps := accOpt env addP, propNames := accOpt env pn, deps := accKeyed env deps,
+        elements := accList env els } a
+theorem accOpt_anon (env : Env) : ∀ (o : Option Elem), accOpt env (anonO o) = accOpt env o
+  | none => by rw [anonO]
+  | some e => by rw [anonO, accOpt, accOpt, acc_anonymize env e]
+theorem accAddl_anon (env : Env) : ∀ (o : Option Elem), accAddl env (anonO o) = accAddl env o
+  | none => by rw [anonO]
+  | some e => by rw [anonO, accAddl, accAddl, acc_anonymize env e, anonymize_isNothing]
+theorem accList_anon (env : Env) : ∀ (l : List Elem), accList env (anonL l) = accList env l
+  | [] => by rw [anonL]
+  | e :: es => by rw [anonL, accList, accList, acc_anonymize env e, accList_anon env es]
+theorem accKeyed_anon (env : Env) : ∀ (l : List (Key × Elem)), accKeyed env (anonK l) = accKeyed env l
+  | [] => by rw [anonK]
+  | (k, e) :: r => by rw [anonK, accKeyed, accKeyed, acc_anonymize env e, accKeyed_anon env r]
+theorem accProps_anon (env : Env) : ∀ (l : List (Key × Elem)), accProps env (anonP l) = propsErase (accProps env l)
+  | [] => by rw [anonP, accProps]; rfl
+  | (k, e) :: r => by
+    rw [anonP, accProps, accProps, acc_anonymize env e, accProps_anon env r, anonymize_kw]
+    rfl
+end
+
+/-- two trees that are the same once attribute names and class names are forgotten accept the same values (and treat
+    "not passed" alike) -/
+theorem acc_congr_of_anonymize (env : Env) (a b : Elem) (h : anonymize a = anonymize b) : a.acc env = b.acc env := by
+  rw [← acc_anonymize env a, ← acc_anonymize env b, h]
+
 end Statham
